@@ -113,6 +113,15 @@ func genForFamily(prop string, rng *rand.Rand, family string) *sim.Scenario {
 		s.Events = append(s.Events, sim.Injected{AtStep: 2 + rng.Intn(n-1), AtState: states[rng.Intn(3)], Action: "rollback", Immediate: rng.Intn(2) == 0})
 		return s
 	}
+	// a plan edit in the middle of the release: the current step asks for more pods
+	if (prop == "C11" || prop == "C01" || prop == "C02" || prop == "C07" || prop == "C06") && rng.Intn(6) == 0 {
+		e := sim.Injected{AtStep: 1 + rng.Intn(n), AtState: []string{"StepPaused", "StepPaused", "StepUpgrade", "StepTrafficRouting"}[rng.Intn(4)], Action: "plan-raise", Immediate: rng.Intn(2) == 0}
+		if rng.Intn(2) == 0 {
+			// aimed at the hand-over: the BatchRelease has just verified / reported the batch, the Rollout has not consumed it yet
+			e.AtState, e.AtBRState, e.Immediate = "StepUpgrade", []string{"Ready", "Ready", "Verifying"}[rng.Intn(3)], true
+		}
+		s.Events = append(s.Events, e)
+	}
 	switch prop {
 	case "C05", "C18":
 		if rng.Intn(5) > 0 {
@@ -202,11 +211,18 @@ func genForFamily(prop string, rng *rand.Rand, family string) *sim.Scenario {
 
 // RunScenario executes one scenario with monitors attached.
 func RunScenario(s *sim.Scenario, faults *sim.FaultPlan, keepTrace bool) (*sim.Run, *monitor.Set, []monitor.Violation, error) {
+	return runScenarioOpt(s, faults, keepTrace, nil)
+}
+
+func runScenarioOpt(s *sim.Scenario, faults *sim.FaultPlan, keepTrace bool, opt func(*sim.Run)) (*sim.Run, *monitor.Set, []monitor.Violation, error) {
 	r, err := sim.NewRun(s, repoDir(), faults)
 	if err != nil {
 		return nil, nil, nil, err
 	}
 	r.KeepTrace = keepTrace
+	if opt != nil {
+		opt(r)
+	}
 	m := monitor.Attach(r)
 	var seqSig []string
 	r.W.Store.OnWrite = append(r.W.Store.OnWrite, func(w *simapi.Write, v *simapi.View) {
